@@ -39,6 +39,7 @@ def check(ctx, props, spec, m, parset, case_key):
                     continue
                 num = 0.0
                 den = 0.0
+                ws, vs = [], []
                 for j_name, sv in src_vars.items():
                     if inter is None:
                         w = 1.0
@@ -50,8 +51,14 @@ def check(ctx, props, spec, m, parset, case_key):
                             w = float(ts_owner.interpolate(np.array([t]), to)[0] * ts_owner.y_factor[to] * ts_owner.meta_y_factor)
                     if w_vars is not None:
                         w *= _val(w_vars[j_name], ti)
-                    num += w * _val(sv, ti)
-                    den += w
+                    ws.append(w)
+                    vs.append(_val(sv, ti))
+                # weights that are floating-point dust (1e-300 people ...) are scaled by the largest one first, so that w*v does not underflow to 0 while sum(w) does not
+                wmax = max([abs(w_) for w_ in ws if np.isfinite(w_)] + [0.0])
+                sc_ = wmax if (fn.endswith("AVG") and 0 < wmax < 1e-150) else 1.0
+                for w_, v_ in zip(ws, vs):
+                    num += (w_ / sc_) * v_
+                    den += w_ / sc_
                 if fn.endswith("AVG"):
                     expect = num / (den if den != 0 else 1.0)
                 else:
